@@ -551,6 +551,15 @@ where
                 method,
                 opts.incremental_backtracking,
             );
+            if *opts == CumOpts::default_opts() {
+                // the plain constructor (default options chosen by the library)
+                return apply(
+                    solver,
+                    constraints::cumulative(mkv(starts), durations.clone(), usages.clone(), *cap),
+                    mode,
+                    tag,
+                );
+            }
             apply(
                 solver,
                 constraints::cumulative_with_options(
